@@ -16,8 +16,9 @@ for pid in ids:
     wt = f"{rd}/{pid}"
     if not os.path.isdir(wt):
         subprocess.run(["git", "-C", "/repo", "worktree", "add", "--detach", "-q", wt, "HEAD"], check=True)
-    anchors = ", ".join(sorted({a["file"] if isinstance(a, dict) else str(a) for a in d.get("anchors", [])}))
-    open(f"{rd}/{pid}.property.txt", "w").write(f"{pid}: {d['title']}\n\nSTATEMENT: {d['statement']}\n\nQUANTIFIED OVER: {d['quantifier']}\n\nCODE INVOLVED: {anchors}\n")
+    anchors = ", ".join(d.get("anchors", {}).get("files", []))
+    quant = d["quantifier"]["text"] if isinstance(d["quantifier"], dict) else d["quantifier"]
+    open(f"{rd}/{pid}.property.txt", "w").write(f"{pid}: {d['title']}\n\nSTATEMENT: {d['statement']}\n\nQUANTIFIED OVER: {quant}\n\nCODE INVOLVED: {anchors}\n")
     used = []
     for sd in sorted(glob.glob(f"/verif/seeded/{pid}-*")):
         patch = open(f"{sd}/patch.diff").read()
